@@ -316,110 +316,150 @@ type flCfg struct {
 	// the hash target of the proof consisting of that repetition alone (k = 1: a complete forgery)
 }
 
-// flForge runs the public proving algorithm of the (randomised) Fischlin compiler with the given
-// configuration.  Returns nil when the search failed.
-func flForge[X sigma.Statement, W sigma.Witness, A sigma.Statement, S sigma.State, Z sigma.Response](
-	r *Rng, ctx *session.Context, proto sigma.Protocol[X, W, A, S, Z], fp fischlinParams, randomised bool, x X, w W, cfg flCfg,
-) *flDecoded[A, Z] {
-	n := proto.GetChallengeBytesLength()
+// flEnv: the hashing environment of one (randomised) Fischlin proof — the transcript prefix the
+// prover and the verifier absorb before the repetitions, recomputed through the real transcript.
+type flEnv[X sigma.Statement, W sigma.Witness, A sigma.Statement, S sigma.State, Z sigma.Response] struct {
+	r          *Rng
+	proto      sigma.Protocol[X, W, A, S, Z]
+	fp         fischlinParams
+	randomised bool
+	x          X
+	xb         []byte
+	sid        []byte
+	key        []byte // commonH key (deterministic) / crs (randomised)
+	n          int
+	space      uint64
+}
+
+func newFlEnv[X sigma.Statement, W sigma.Witness, A sigma.Statement, S sigma.State, Z sigma.Response](
+	r *Rng, ctx *session.Context, proto sigma.Protocol[X, W, A, S, Z], fp fischlinParams, randomised bool, x X, rhoLabel uint64,
+) *flEnv[X, W, A, S, Z] {
 	sid := ctx.SessionID()
 	t := ctx.Transcript()
-	xb := x.Bytes()
-	var key []byte
+	env := &flEnv[X, W, A, S, Z]{r: r, proto: proto, fp: fp, randomised: randomised, x: x, xb: x.Bytes(), sid: sid[:], n: proto.GetChallengeBytesLength()}
 	var err error
 	if randomised {
 		const label = "BRON_CRYPTO_NIZK_RANDOMISED_FISCHLIN-"
 		t.AppendDomainSeparator(label + "-" + string(proto.Name()) + "-" + hex.EncodeToString(sid[:]))
 		t.AppendDomainSeparator(label + "-" + hex.EncodeToString(sid[:]))
-		key, err = t.ExtractBytes("crsLabel-", 32)
+		env.key, err = t.ExtractBytes("crsLabel-", 32)
+		env.space = uint64(1) << 14
 	} else {
 		t.AppendDomainSeparator("BRON_CRYPTO_NIZK_FISCHLIN-" + "-" + string(proto.Name()) + "-" + hex.EncodeToString(sid[:]))
-		t.AppendBytes("rhoLabel-", binary.LittleEndian.AppendUint64(nil, cfg.rhoLabel))
-		t.AppendBytes("statementLabel-", xb)
-		key, err = t.ExtractBytes("commonHLabel-", 32)
+		t.AppendBytes("rhoLabel-", binary.LittleEndian.AppendUint64(nil, rhoLabel))
+		t.AppendBytes("statementLabel-", env.xb)
+		env.key, err = t.ExtractBytes("commonHLabel-", 32)
+		env.space = uint64(1) << fp.t
 	}
 	if err != nil {
 		return nil
 	}
-	// does repetition i with (e, z) meet the target when the commitments of the proof are aCat?
-	meets := func(common []byte, aCat []byte, i int, e []byte, zb []byte) bool {
-		if randomised {
-			h, err := hashing.HashIndexLengthPrefixed(sha3.New256, key, aCat, binary.LittleEndian.AppendUint64(nil, uint64(i)), e, zb)
-			return err == nil && h[0] == 0
-		}
-		h := sha3Concat(common, binary.LittleEndian.AppendUint64(make([]byte, 8), uint64(i)), e, zb)
-		for bit := 0; bit < fp.b; bit++ {
-			if h[bit/8]&(1<<(bit%8)) != 0 {
-				return false
-			}
-		}
-		return true
+	return env
+}
+
+// common value of a proof whose concatenated commitments are aCat (deterministic variant)
+func (env *flEnv[X, W, A, S, Z]) commonOf(aCat []byte) []byte {
+	if env.randomised {
+		return nil
 	}
-	commonOf := func(aCat []byte) []byte {
-		if randomised {
-			return nil
+	return sha3Concat(env.key, env.xb, aCat, env.sid)
+}
+
+// does repetition i with (e, z) meet the target when the commitments of the proof are aCat?
+func (env *flEnv[X, W, A, S, Z]) meets(common, aCat []byte, i int, e, zb []byte) bool {
+	if env.randomised {
+		h, err := hashing.HashIndexLengthPrefixed(sha3.New256, env.key, aCat, binary.LittleEndian.AppendUint64(nil, uint64(i)), e, zb)
+		return err == nil && h[0] == 0
+	}
+	h := sha3Concat(common, binary.LittleEndian.AppendUint64(make([]byte, 8), uint64(i)), e, zb)
+	for bit := 0; bit < env.fp.b; bit++ {
+		if h[bit/8]&(1<<(bit%8)) != 0 {
+			return false
 		}
-		return sha3Concat(key, xb, aCat, sid[:])
 	}
-	// the j-th candidate challenge: (bytes handed to the sigma protocol, bytes stored in the proof)
-	challenge := func(j uint64) (full, stored []byte) {
-		full = make([]byte, n)
-		if randomised {
-			_, _ = r.Read(full[:7]) // TBytes
-			return full, full
-		}
-		var be [8]byte
-		binary.BigEndian.PutUint64(be[:], j)
-		copy(full[n-8:], be[:])
-		return full, full[n-(fp.t+7)/8:]
+	return true
+}
+
+// the j-th candidate challenge: (bytes handed to the sigma protocol, bytes stored in the proof)
+func (env *flEnv[X, W, A, S, Z]) challenge(j uint64) (full, stored []byte) {
+	full = make([]byte, env.n)
+	if env.randomised {
+		_, _ = env.r.Read(full[:7]) // TBytes
+		return full, full
 	}
-	space := uint64(1) << 14
-	if !randomised {
-		space = uint64(1) << fp.t
+	var be [8]byte
+	binary.BigEndian.PutUint64(be[:], j)
+	copy(full[env.n-8:], be[:])
+	return full, full[env.n-(env.fp.t+7)/8:]
+}
+
+// pad: the bytes of a stored challenge as the sigma protocol receives them
+func (env *flEnv[X, W, A, S, Z]) pad(stored []byte) []byte {
+	if env.randomised || len(stored) >= env.n {
+		return stored
 	}
-	d := &flDecoded[A, Z]{a: make([]A, cfg.k), e: make([][]byte, cfg.k), z: make([]Z, cfg.k)}
-	if cfg.sim {
-		for i := 0; i < cfg.k; i++ {
-			found := false
-			for try := uint64(0); try < space*4 && !found; try++ {
-				full, stored := challenge(uint64(r.IntN(int(space))))
-				a, z, err := proto.RunSimulator(x, full)
-				if err != nil {
-					return nil
-				}
-				ab := a.Bytes()
-				if meets(commonOf(ab), ab, i, stored, z.Bytes()) {
-					d.a[i], d.e[i], d.z[i] = a, append([]byte{}, stored...), z
-					found = true
-				}
-			}
-			if !found {
-				return nil
-			}
-		}
-		return d
+	full := make([]byte, env.n)
+	copy(full[env.n-len(stored):], stored)
+	return full
+}
+
+func aCatOf[A sigma.Statement](as []A) []byte {
+	var out []byte
+	for _, a := range as {
+		out = append(out, a.Bytes()...)
 	}
-redo:
-	for attempt := 0; attempt < 4; attempt++ {
-		st := make([]S, cfg.k)
-		var aCat []byte
-		for i := 0; i < cfg.k; i++ {
-			d.a[i], st[i], err = proto.ComputeProverCommitment(x, w)
+	return out
+}
+
+// simulate: k simulated transcripts (no witness), each ground until it meets the hash target of the
+// proof consisting of that repetition alone (k = 1: a complete forgery)
+func (env *flEnv[X, W, A, S, Z]) simulate(k int) *flDecoded[A, Z] {
+	d := &flDecoded[A, Z]{a: make([]A, k), e: make([][]byte, k), z: make([]Z, k)}
+	for i := 0; i < k; i++ {
+		found := false
+		for try := uint64(0); try < env.space*4 && !found; try++ {
+			full, stored := env.challenge(uint64(env.r.IntN(int(env.space))))
+			a, z, err := env.proto.RunSimulator(env.x, full)
 			if err != nil {
 				return nil
 			}
-			aCat = append(aCat, d.a[i].Bytes()...)
+			ab := a.Bytes()
+			if env.meets(env.commonOf(ab), ab, i, stored, z.Bytes()) {
+				d.a[i], d.e[i], d.z[i] = a, append([]byte{}, stored...), z
+				found = true
+			}
 		}
-		common := commonOf(aCat)
-		for i := 0; i < cfg.k; i++ {
+		if !found {
+			return nil
+		}
+	}
+	return d
+}
+
+// prove: the public proving algorithm with k repetitions; also returns the prover states
+func (env *flEnv[X, W, A, S, Z]) prove(k int, w W) (*flDecoded[A, Z], []S) {
+	d := &flDecoded[A, Z]{a: make([]A, k), e: make([][]byte, k), z: make([]Z, k)}
+	var err error
+redo:
+	for attempt := 0; attempt < 4; attempt++ {
+		st := make([]S, k)
+		for i := 0; i < k; i++ {
+			d.a[i], st[i], err = env.proto.ComputeProverCommitment(env.x, w)
+			if err != nil {
+				return nil, nil
+			}
+		}
+		aCat := aCatOf(d.a)
+		common := env.commonOf(aCat)
+		for i := 0; i < k; i++ {
 			found := false
-			for j := uint64(0); j < space && !found; j++ {
-				full, stored := challenge(j)
-				z, err := proto.ComputeProverResponse(x, w, d.a[i], st[i], full)
+			for j := uint64(0); j < env.space && !found; j++ {
+				full, stored := env.challenge(j)
+				z, err := env.proto.ComputeProverResponse(env.x, w, d.a[i], st[i], full)
 				if err != nil {
-					return nil
+					return nil, nil
 				}
-				if meets(common, aCat, i, stored, z.Bytes()) {
+				if env.meets(common, aCat, i, stored, z.Bytes()) {
 					d.e[i], d.z[i] = append([]byte{}, stored...), z
 					found = true
 				}
@@ -428,9 +468,73 @@ redo:
 				continue redo
 			}
 		}
-		return d
+		return d, st
+	}
+	return nil, nil
+}
+
+func (d *flDecoded[A, Z]) clone() *flDecoded[A, Z] {
+	return &flDecoded[A, Z]{a: append([]A{}, d.a...), e: append([][]byte{}, d.e...), z: append([]Z{}, d.z...)}
+}
+
+// skipWork: repetition i of the valid proof d is replaced by another VALID sigma transcript on the
+// same commitment that does not meet the hash target (a prover that skips the proof of work there)
+func (env *flEnv[X, W, A, S, Z]) skipWork(d *flDecoded[A, Z], st []S, i int, w W) *flDecoded[A, Z] {
+	aCat := aCatOf(d.a)
+	common := env.commonOf(aCat)
+	for j := uint64(0); j < 64; j++ {
+		full, stored := env.challenge(j)
+		z, err := env.proto.ComputeProverResponse(env.x, w, d.a[i], st[i], full)
+		if err != nil {
+			return nil
+		}
+		if !env.meets(common, aCat, i, stored, z.Bytes()) {
+			out := d.clone()
+			out.e[i], out.z[i] = append([]byte{}, stored...), z
+			return out
+		}
 	}
 	return nil
+}
+
+// wrongResponse: repetition i keeps its commitment and challenge but carries the response to ANOTHER
+// challenge, searched until (e_i, z') meets the hash target: the hash check passes, the sigma
+// verification of that repetition cannot
+func (env *flEnv[X, W, A, S, Z]) wrongResponse(d *flDecoded[A, Z], st []S, i int, w W) *flDecoded[A, Z] {
+	aCat := aCatOf(d.a)
+	common := env.commonOf(aCat)
+	for j := uint64(0); j < env.space; j++ {
+		full, stored := env.challenge(j)
+		if c08BytesEq(stored, d.e[i]) {
+			continue
+		}
+		z, err := env.proto.ComputeProverResponse(env.x, w, d.a[i], st[i], full)
+		if err != nil {
+			return nil
+		}
+		if env.meets(common, aCat, i, d.e[i], z.Bytes()) {
+			out := d.clone()
+			out.z[i] = z
+			return out
+		}
+	}
+	return nil
+}
+
+// flForge runs the public proving algorithm of the (randomised) Fischlin compiler with the given
+// configuration.  Returns nil when the search failed.
+func flForge[X sigma.Statement, W sigma.Witness, A sigma.Statement, S sigma.State, Z sigma.Response](
+	r *Rng, ctx *session.Context, proto sigma.Protocol[X, W, A, S, Z], fp fischlinParams, randomised bool, x X, w W, cfg flCfg,
+) *flDecoded[A, Z] {
+	env := newFlEnv(r, ctx, proto, fp, randomised, x, cfg.rhoLabel)
+	if env == nil {
+		return nil
+	}
+	if cfg.sim {
+		return env.simulate(cfg.k)
+	}
+	d, _ := env.prove(cfg.k, w)
+	return d
 }
 
 func flEncode[A sigma.Statement, Z sigma.Response](d *flDecoded[A, Z], randomised bool) (out []byte) {
@@ -572,10 +676,21 @@ func advFischlin[X sigma.Statement, W sigma.Witness, A sigma.Statement, S sigma.
 	_ = full
 	// the adversarial prover configured like the honest one is complete (so the attacks differ from
 	// an acceptable proof in the component count only)
-	if d := forge(cs.x, cs.w, flCfg{k: fp.rho, rhoLabel: rho}); d != nil {
-		present("own-prover-honest-configuration", cs.x, d, "accept")
-	} else {
-		c.Violation(tag + " own prover: search failed in the honest configuration")
+	if env := newFlEnv(r, spec.build(), p, fp, randomised, cs.x, rho); env != nil {
+		if d, st := env.prove(fp.rho, cs.w); d != nil {
+			present("own-prover-honest-configuration", cs.x, d, "accept")
+			// each of the two per-repetition checks is necessary on its own
+			for _, i := range []int{0, 1 + r.IntN(fp.rho-1)} {
+				if d2 := env.skipWork(d, st, i, cs.w); d2 != nil {
+					present("repetition-misses-target", cs.x, d2, "reject")
+				}
+				if d2 := env.wrongResponse(d, st, i, cs.w); d2 != nil {
+					present("repetition-response-for-other-challenge", cs.x, d2, "reject")
+				}
+			}
+		} else {
+			c.Violation(tag + " own prover: search failed in the honest configuration")
+		}
 	}
 	if d := forge(cs.x, cs.w, flCfg{k: fp.rho + 1, rhoLabel: rho}); d != nil {
 		present("one-more-repetition", cs.x, d, "reject")
